@@ -1076,6 +1076,13 @@ func (e *enc) siteCounts() map[string]int {
 				cc = &x.Call
 			case *ssa.Send:
 				out["send:"+e.valText(x.Chan)]++
+			case *ssa.Store:
+				// direct assignments to a field (x.f = v), by field name: "only store:f n"
+				if fa, ok := stripVal(x.Addr).(*ssa.FieldAddr); ok {
+					if stt := structOf(fa.X.Type()); stt != nil {
+						out["store:"+stt.Field(fa.Field).Name()]++
+					}
+				}
 			case *ssa.UnOp:
 				if x.Op == token.ARROW {
 					out["recv:"+e.valText(x.X)]++
